@@ -177,9 +177,10 @@ def _one(ctx, i, rep=None):
             key = classify_ws_restore(mm, g, s, cfg, ref, stripped)
         if key is None:
             key = classify_repaired(mm, g, s, cfg, ref, gen_.used_features)
-        if key is None and stripped:
-            # both recorded Arpeggio mechanisms at work in one parse
-            key = classify_repaired(mm, g, s, cfg, ref, gen_.used_features, also=('eolterm-ws-restore',))
+        if key is None:
+            # both recorded Arpeggio mechanisms at work in one parse (the ws restore may only be reached once the result
+            # convention no longer stops the parse early: the monitor must see it in this parse or in the repaired one)
+            key = classify_repaired(mm, g, s, cfg, ref, gen_.used_features, also=('eolterm-ws-restore',), stripped=stripped)
         ctx.violation(key, 'reference %s / textX %s on input %r (cfg %s)' % (ref[0], got[0], s[:60], cfg), case, rep)
 
 
@@ -222,13 +223,19 @@ def classify_ws_restore(mm, g, s, cfg, ref, stripped_restores):
     return None
 
 
-def classify_repaired(mm, g, s, cfg, ref, feats, also=()):
+def classify_repaired(mm, g, s, cfg, ref, feats, also=(), stripped=0):
     """explained-by for Arpeggio's result convention: the divergence must disappear when textX runs once more on an Arpeggio
     in which exactly that convention is repaired (harness-side); combined with the other recorded mechanisms the repaired run
     must equal the reference that emulates those."""
     if not any(f.startswith(('nullable-', 'repetition-of-suppressed')) for f in feats):
         return None
     from tv.hooks import arpeggio_repaired
+    if also and not stripped:
+        sr0 = PS.stripped_restores
+        with arpeggio_repaired({'falsy-result'}):
+            P.textx_outcome(mm, s)
+        if PS.stripped_restores == sr0:
+            return None
     with arpeggio_repaired({'falsy-result'} | set(also)):
         got2 = P.textx_outcome(mm, s)
     g2 = ('reject',) if got2[0] == 'reject' else got2
